@@ -16,10 +16,12 @@ RULE = ("sibling stages s1..sn (n in {2,3}) sharing a mutex key, a deferred-choi
         "a seeded random script of sequential engine actions (deliver a waiting StartStage, run a started stage to completion, deliver a CancelStage / "
         "CompleteWorkflow, run the claim sweep) with the model state compared after every action; monitors replay the status-audit trigger log: never two "
         "live stages per mutex key after any commit, every mutex waiter eventually runs, exactly one member of a choice group ever starts and the others "
-        "end CANCELED. Plus fixed scenarios: jump re-arm of a mutex owner (F30), sweep of a terminal execution with a live holder (F31).")
+        "end CANCELED. Plus two fixed regression scenarios: a retry loop whose stages share a mutex (jump re-arm of the owner, F30) and the sweep "
+        "of a terminal execution while the holder is SUSPENDED (F31).")
 ASSUMPTIONS = [
     "Mode B explores the interleavings SQLite's single-writer locking permits at transaction granularity plus all read windows, nested to depth 2 (harness/modeb.py)",
-    "the theorems and the exclusiveness monitor are about executions that are not terminal; what a sweep does once the execution is terminal is finding F31",
+    "the deferred-choice theorems are about executions that are not terminal (nothing should start in a terminal execution: C17); the mutex theorems "
+    "and the exclusiveness monitor have no such restriction",
     "delays are treated as elapsed only when nothing else is deliverable (a waiting StartStage is re-delivered when the queue is otherwise idle)",
 ]
 TRUSTED_BASE = [
@@ -39,9 +41,16 @@ class Wf:
     n: int
     mutex: bool
     choice: bool
+    holder_done: bool = False      # s1 already ran to completion holding the claim: the others race on the steal path
 
     def key(self) -> str:
-        return f"n{self.n}{'m' if self.mutex else ''}{'g' if self.choice else ''}"
+        return f"n{self.n}{'m' if self.mutex else ''}{'g' if self.choice else ''}{'-steal' if self.holder_done else ''}"
+
+    def prefix_ops(self) -> list[str]:
+        return ["T0", "F0:SUCCEEDED"] if self.holder_done else []
+
+    def racers(self) -> list[int]:
+        return list(range(1 if self.holder_done else 0, self.n))
 
     def spec(self) -> str:
         one = ("m0" if self.mutex else "") + ("g0" if self.choice else "")
@@ -49,7 +58,7 @@ class Wf:
 
 
 def workflows(thorough: bool) -> list[Wf]:
-    ws = [Wf(2, True, False), Wf(2, False, True), Wf(3, True, False), Wf(3, False, True), Wf(2, True, True)]
+    ws = [Wf(2, True, False), Wf(2, False, True), Wf(3, True, False), Wf(3, False, True), Wf(2, True, True), Wf(3, True, False, holder_done=True)]
     if thorough:
         ws += [Wf(3, True, True)]
     return ws
@@ -133,6 +142,11 @@ class Lab:
         codes = sorted(c for _, c in env.pending())
         if codes != [f"SS(s{i + 1})" for i in range(wf.n)]:
             raise RuntimeError(f"S0 not reached: {codes}")
+        if wf.holder_done:
+            env.deliver(env.find("SS(s1)")[0])
+            env.drain(max_steps=12, hold=lambda c: not c.endswith("(s1)") and not c.startswith("CT(s1)"))
+            if env.stage_row("s1")["status"] != "SUCCEEDED":
+                raise RuntimeError(f"holder did not complete: {env.state_line()}")
         meta = {"ids": dict(env.ids), "refs": dict(env.refs), "wf_id": env.wf_id, "wf_type": env.wf_type}
         snap = mb.snapshot(env)
         self.env = env
@@ -177,7 +191,7 @@ def audit_monitors(env, wf: Wf, allow_terminal_overlap: bool = False) -> list[tu
         if wf.mutex:
             livenow = sorted(r for r, s in status.items() if s in LIVE)
             if len(livenow) > 1:
-                sig = F31_SIG if wf_terminal else "mutex-two-live"
+                sig = F31_SIG if wf_terminal else "mutex-two-live"      # F31_SIG: the regression signature of the fixed finding
                 v.append((f"stages {livenow} are live together under one mutex key (execution terminal: {wf_terminal})", sig))
     if wf.choice:
         winners = sorted(starts)
@@ -309,7 +323,7 @@ def run_one(lab: Lab, wf: Wf, ops: list[dict], snap, meta, seed: int) -> Result:
             res += flatten(k + 1)
         return res
 
-    model_ops = flatten(0)
+    model_ops = wf.prefix_ops() + flatten(0)
     race_len = len(model_ops)
     race_out = {od["name"]: a[1] for od, a in zip(ops, abss)}
     impl_states = [observe(env, wf)]
@@ -318,7 +332,7 @@ def run_one(lab: Lab, wf: Wf, ops: list[dict], snap, meta, seed: int) -> Result:
     rng = random.Random(f"{wf.key()}:{json.dumps(ops)}:{seed}")
     reason = continuation(env, wf, rng, model_ops, impl_states)
     violations = audit_monitors(env, wf) + final_monitors(env, wf, reason)
-    driver_line = f"claims fix=0;{wf.spec()};{','.join(model_ops)}"
+    driver_line = f"claims fix=1;{wf.spec()};{','.join(model_ops)}"
     impl_line = json.dumps({"race": race_out, "xs": pendx, "states": impl_states})
     sched["model_ops"] = model_ops
     sched["race_len"] = race_len
@@ -329,7 +343,7 @@ def run_one(lab: Lab, wf: Wf, ops: list[dict], snap, meta, seed: int) -> Result:
 
 def project_model(wf: Wf, model_ops: list[str], race_len: int, ops: list[dict], lean_lines) -> list[str]:
     """Ask the model for the state after the race and after every later action (prefix lines)."""
-    lines = [f"claims fix=0;{wf.spec()};{','.join(model_ops[:k])}" for k in range(race_len, len(model_ops) + 1)]
+    lines = [f"claims fix=1;{wf.spec()};{','.join(model_ops[:k])}" for k in range(race_len, len(model_ops) + 1)]
     return lines
 
 
@@ -469,6 +483,8 @@ def digest(ctx, results: list[dict]) -> None:
     for res in results:
         mbx["points"] = mbx.get("points", 0) + res["points"]
         mbx["illegal_points"] = mbx.get("illegal_points", 0) + res["illegal_points"]
+    allsched = sorted((r for res in results for r in res["schedules"]), key=lambda r: (len(r["sched"]["ops"]), json.dumps(r["sched"]["ops"])))
+    for res in [{"schedules": allsched}]:
         for r in res["schedules"]:
             sched = r["sched"]
             canon = {"wf": sched["wf"], "ops": sched["ops"], "seed": sched["seed"]}
@@ -487,7 +503,7 @@ def digest(ctx, results: list[dict]) -> None:
             wf = Wf(**sched["wf"])
             mo = sched["model_ops"]
             for k in range(sched["race_len"], len(mo) + 1):
-                lines.append(f"claims fix=0;{wf.spec()};{','.join(mo[:k])}")
+                lines.append(f"claims fix=1;{wf.spec()};{','.join(mo[:k])}")
                 owners.append((r, k))
             for o in mo:
                 ctx.tag("op:" + re.sub(r"\d+", "", o.split(":")[0]))
@@ -529,29 +545,26 @@ def digest(ctx, results: list[dict]) -> None:
 
 
 def run_scenarios(ctx) -> None:
-    """Fixed stories on the real engine, each with the model's account of the same op list (fix=0: code as found; if the
-    engine behaves like the fixed model instead, fix=1 is compared)."""
+    """Fixed stories on the real engine (regressions of findings F30 / F31), each with the model's account of the same op list."""
     stories = (
-        ("rearm", scenario_rearm, "m0,m0", "T0,F0:SUCCEEDED,T1,R1,R0,T0", "T0,F0:SUCCEEDED,T1,R1,R0,T0,F0:SUCCEEDED,T1,F1:SUCCEEDED,E"),
-        ("sweep-terminal", scenario_sweep_terminal, "m0,m0,-", "T0,U0:SUSPENDED,T1,T2,F2:TERMINAL,E,W,T1,V0", None),
+        ("rearm", scenario_rearm, "m0,m0", "T0,F0:SUCCEEDED,T1,R1,R0,T0,F0:SUCCEEDED,T1,F1:SUCCEEDED,E"),
+        ("sweep-terminal", scenario_sweep_terminal, "m0,m0,-", "T0,U0:SUSPENDED,T1,T2,F2:TERMINAL,E,W,T1,V0"),
     )
-    for name, fn, spec, ops0, ops1 in stories:
+    for name, fn, spec, ops in stories:
         r = fn()
         ctx.count({"scenario": name}, nontrivial=True)
         ctx.tag("scenario:" + name)
         ctx.extra.setdefault("scenarios", {})[name] = {k: r[k] for k in r if k != "violations"}
         for what, sig in r["violations"]:
             ctx.violation(what, sig, {"scenario": name, **{k: r[k] for k in r if k != "violations"}})
-        lines = [f"claims fix=0;{spec};{ops0}"] + ([f"claims fix=1;{spec};{ops1}"] if ops1 else [])
-        out = ctx.lean(lines)
+        line = f"claims fix=1;{spec};{ops}"
+        out = ctx.lean([line])
         if out is None:
             continue
         ctx.corr_suites["claims-scenarios"] += 1
-        states = [" ; ".join(x.strip() for x in o.split(";")[1:4]) for o in out]
-        if r["observe"] not in states:
-            ctx.corr_failures.append({"suite": "claims-scenarios", "input": name, "driver_line": lines[0], "impl": r["observe"], "model": states})
-        else:
-            ctx.tag(f"scenario:{name}:matches-fix={states.index(r['observe'])}")
+        state = " ; ".join(x.strip() for x in out[0].split(";")[1:4])
+        if r["observe"] != state:
+            ctx.corr_failures.append({"suite": "claims-scenarios", "input": name, "driver_line": line, "impl": r["observe"], "model": state})
 
 
 def run(ctx) -> None:
@@ -561,7 +574,7 @@ def run(ctx) -> None:
     run_scenarios(ctx)
     units = []
     for wf in workflows(ctx.thorough):
-        idx = list(range(wf.n))
+        idx = wf.racers()
         for a in idx:
             for b in idx + ["W"]:
                 if a == b:
@@ -569,7 +582,7 @@ def run(ctx) -> None:
                 thirds: list[Any] = [None]
                 if ctx.thorough and b != "W":
                     thirds += [c for c in idx if c not in (a, b)] + ["W"]
-                elif not ctx.thorough and b != "W" and wf.n == 3 and (a, b) == (0, 1):
+                elif not ctx.thorough and b != "W" and wf.n == 3 and not wf.holder_done and (a, b) == (0, 1):
                     thirds += [2]      # one nested family in the quick tier
                 for t3 in thirds:
                     if t3 is None:
